@@ -146,6 +146,11 @@ fn run_case(case: &Value) -> (Value, Option<Ctx>) {
             results.push(json!({"skip": "other proc"}));
             continue;
         }
+        let mut c = c.clone();
+        if c.get("op").and_then(|v| v.as_str()) == Some("reopen_in_thread") {
+            c["rootpath_abs"] = json!(rootpath);
+        }
+        let c = &c;
         let before = list_fds();
         LAST_PANIC_LOC.with(|c| c.borrow_mut().clear());
         let mut r = exec_call(&mut ctx, idx, c);
